@@ -53,7 +53,128 @@ func genC09(ctx *fw.Ctx) []fw.Case {
 		rev := rev
 		cases = append(cases, fw.Case{ID: fmt.Sprintf("mixed-widths/reverse=%v", rev), Run: func(r *fw.Rec) { c09MixedWidths(r, rev) }})
 	}
+	for _, w := range []uint64{1, 7, 32, 63, 64, 65, 100, 128, 129, 257} {
+		w := w
+		cases = append(cases, fw.Case{ID: fmt.Sprintf("positions/i%d", w), Run: func(r *fw.Rec) { c09Positions(r, w) }})
+	}
 	return cases
+}
+
+// c09Positions puts integer literals where they are not the whole initializer
+// of a global: elements of arrays and vectors, struct fields, nested
+// aggregates, operands of constant expressions and of instructions, switch
+// cases. Input spellings and the printer's own spelling (parse, print, parse
+// again) must denote the same values in every position.
+func c09Positions(r *fw.Rec, w uint64) {
+	rng := r.Ctx().Rand(fmt.Sprintf("positions/%d", w))
+	vs := structuredValues(w, rng, r.Ctx().Pick(40, 400))
+	if n := r.Ctx().Pick(160, 1600); len(vs) > n {
+		rng.Shuffle(len(vs), func(i, j int) { vs[i], vs[j] = vs[j], vs[i] })
+		vs = vs[:n]
+	}
+	type slot struct {
+		lit  intLit
+		read func(m *ir.Module) *big.Int
+	}
+	var sb strings.Builder
+	var slots []slot
+	asInt := func(c interface{}) *big.Int {
+		if ci, ok := c.(*constant.Int); ok {
+			return ci.X
+		}
+		return nil
+	}
+	gidx := 0
+	global := func(m *ir.Module, i int) constant.Constant { return m.Globals[i].Init }
+	for _, v := range vs {
+		sp := spellings(w, v, rng, false)
+		l := sp[rng.Intn(len(sp))]
+		if l.kind == "s0x-fullwidth-positive" {
+			continue
+		}
+		t := fmt.Sprintf("i%d", w)
+		k := gidx
+		switch rng.Intn(5) {
+		case 0:
+			fmt.Fprintf(&sb, "@g%d = global [2 x %s] [%s %s, %s %s]\n", k, t, t, l.spell, t, l.spell)
+			slots = append(slots, slot{l, func(m *ir.Module) *big.Int { return asInt(global(m, k).(*constant.Array).Elems[1]) }})
+		case 1:
+			if w == 1 || w > 128 {
+				// (vectors of very wide integers are legal but slow in LLVM; keep them small)
+			}
+			fmt.Fprintf(&sb, "@g%d = global <2 x %s> <%s %s, %s %s>\n", k, t, t, l.spell, t, l.spell)
+			slots = append(slots, slot{l, func(m *ir.Module) *big.Int { return asInt(global(m, k).(*constant.Vector).Elems[0]) }})
+		case 2:
+			fmt.Fprintf(&sb, "@g%d = global { i8, %s } { i8 1, %s %s }\n", k, t, t, l.spell)
+			slots = append(slots, slot{l, func(m *ir.Module) *big.Int { return asInt(global(m, k).(*constant.Struct).Fields[1]) }})
+		case 3:
+			fmt.Fprintf(&sb, "@g%d = global [1 x { [1 x %s] }] [{ [1 x %s] } { [1 x %s] [%s %s] }]\n", k, t, t, t, t, l.spell)
+			slots = append(slots, slot{l, func(m *ir.Module) *big.Int {
+				return asInt(global(m, k).(*constant.Array).Elems[0].(*constant.Struct).Fields[0].(*constant.Array).Elems[0])
+			}})
+		case 4:
+			fmt.Fprintf(&sb, "@g%d = global %s xor (%s ptrtoint (i8* @anchor to %s), %s %s)\n", k, t, t, t, t, l.spell)
+			slots = append(slots, slot{l, func(m *ir.Module) *big.Int { return asInt(global(m, k).(*constant.ExprXor).Y) }})
+		}
+		gidx++
+	}
+	sb.WriteString("@anchor = global i8 0\n")
+	x := sb.String()
+	if ok, msg, err := llvmref.Accepts(x); err != nil || !ok {
+		r.Inconclusive("LLVM rejects the positions module (generator issue): " + firstLine(lastDiag(msg)))
+		return
+	}
+	check := func(stage string, m *ir.Module) bool {
+		for _, sl := range slots {
+			r.Eval(1)
+			var got *big.Int
+			if p, _, _ := fw.Guard(func() { got = sl.read(m) }); p || got == nil {
+				r.Violate(fw.Violation{Key: fmt.Sprintf("positions/shape/%s/i%d", stage, w), Input: x, What: "the module does not have the expected shape at a literal position"})
+				return false
+			}
+			if modw(got, w).Cmp(modw(sl.lit.want, w)) != 0 {
+				r.Violate(fw.Violation{Key: fmt.Sprintf("positions/wrong-value/%s/%s/i%d", stage, sl.lit.kind, w), Input: fmt.Sprintf("i%d %s", w, sl.lit.spell),
+					What:     fmt.Sprintf("literal `i%d %s` inside an aggregate or expression is read as %s (%s)", w, sl.lit.spell, got, stage),
+					Expected: sl.lit.want.String(), Observed: got.String()})
+				return false
+			}
+		}
+		return true
+	}
+	m, perr, pmsg := parseGuard("c09-positions", x)
+	if pmsg != "" || perr != nil {
+		what := pmsg
+		if perr != nil {
+			what = perr.Error()
+		}
+		r.Violate(fw.Violation{Key: fmt.Sprintf("positions/rejected/i%d", w), Input: x, What: "the parser rejects integer literals inside aggregates: " + firstLine(what)})
+		return
+	}
+	if !check("input", m) {
+		return
+	}
+	y, pp := printGuard(m)
+	if pp != "" {
+		r.Violate(fw.Violation{Key: fmt.Sprintf("positions/print-panic/i%d", w), Input: x, What: firstLine(pp)})
+		return
+	}
+	m2, perr2, pmsg2 := parseGuard("c09-positions-printed", y)
+	if pmsg2 != "" || perr2 != nil {
+		r.Violate(fw.Violation{Key: fmt.Sprintf("positions/printed-rejected/i%d", w), Input: y, What: "the printed module is rejected by the parser"})
+		return
+	}
+	if !check("printed", m2) {
+		return
+	}
+	// LLVM's reading of input and printed output
+	cx, _, okx, _, errx := llvmref.Canon(x)
+	cy, _, oky, _, erry := llvmref.Canon(y)
+	if errx == nil && erry == nil && okx && (!oky || cx != cy) {
+		r.Violate(fw.Violation{Key: fmt.Sprintf("positions/llvm-reads-printed-differently/i%d", w), Input: x, What: "LLVM reads the printed module differently from the input: " + firstDiffLines(cx, cy), Observed: y})
+		return
+	}
+	r.NontrivialN(fmt.Sprintf("positions/i%d", w), len(slots))
+	r.TallyN("positions", "literals-inside-aggregates-and-expressions", len(slots))
 }
 
 type intLit struct {
